@@ -172,6 +172,14 @@ def gen_case(rng, index, tier):
                '@@R@@/elsewhere/plain' if tkind.startswith('home') else 'elsewhere/plain',
                '2011-11-11T11:11:11')})
     L.add({'p': tdir + '/files/plain', 't': 'f', 'c': 'plain %d\n' % index})
+    twin = None
+    if '%C3%A9' in text and rng.random() < 0.6:
+        # a twin whose Path differs from item's only by Unicode normal form
+        # (e + combining acute instead of the composed letter): another path
+        twin = text.replace('%C3%A9', 'e%CC%81')
+        L.add({'p': tdir + '/info/twin.trashinfo', 't': 'f', 'c': twin,
+               'm': 0o600, 'sub': True})
+        L.add({'p': tdir + '/files/twin', 't': 'f', 'c': 'twin %d\n' % index})
     L.cwd = ''
     case = L.desc()
     case['tkind'] = tkind
@@ -212,6 +220,12 @@ def run_case(case):
         run.MODE, run.COLD_LOCALE = old
 
 
+def other_entry(p):
+    """a listed path that belongs to the companion entries of the world (the
+    plain one, the normal-form twin), not to the entry under test"""
+    return p.endswith('/elsewhere/plain') or 'e\u0301' in p
+
+
 def _run_case(case):
     out = {'violations': [], 'obs': {}, 'features': []}
     obs = out['obs']
@@ -238,7 +252,7 @@ def _run_case(case):
             out['why'] = 'watchdog'
             return out
         rows = trashio.parse_list_output(r.outtext())
-        mine = [(d, p) for d, p in rows if not p.endswith('/elsewhere/plain')]
+        mine = [(d, p) for d, p in rows if not other_entry(p)]
         if len(mine) == 1:
             readings['list'] = {'date': mine[0][0], 'path': rel_to(mine[0][1], R)}
         elif len(mine) == 0:
@@ -251,7 +265,7 @@ def _run_case(case):
         s0 = w.snapshot()
         r0 = run.run(w, 'restore', topt(case, w) + ['/'], stdin=b'', cwd=w.R)
         lst = trashio.parse_restore_listing(r0.outtext())
-        mine = [(i, d, p) for i, d, p in lst if not p.endswith('/elsewhere/plain')]
+        mine = [(i, d, p) for i, d, p in lst if not other_entry(p)]
         runs['restore-list'] = r0.brief()
         if len(mine) == 1:
             i, d, p = mine[0]
@@ -348,6 +362,11 @@ def _run_case(case):
                         case['tkind'], path_kind(case)), runs=runs)
                 if (case['tdir'] + '/info/plain.trashinfo') not in s1:
                     viol('rm-removed-another-entry', runs=runs)
+                if (case['tdir'] + '/info/twin.trashinfo') in s0:
+                    obs['normal_form_twins'] = 1
+                    if (case['tdir'] + '/info/twin.trashinfo') not in s1 or \
+                            (case['tdir'] + '/files/twin') not in s1:
+                        viol('rm-removed-the-normal-form-twin', runs=runs)
     # ---------------- reading 4: trash-empty DAYS around the boundary
     ld = L_['date']
     if not ld.startswith('?'):
